@@ -21,7 +21,7 @@ sys.path.insert(0, os.path.dirname(os.path.dirname(os.path.abspath(__file__))))
 from sim import env  # noqa: E402
 
 TIERS = {
-    'quick': {'runs': 3000, 'det': 64, 'min_budget': 200},
+    'quick': {'runs': 8000, 'det': 64, 'min_budget': 200},
     'thorough': {'runs': 200000, 'det': 2000, 'min_budget': 400},
 }
 MAX_MINIMISE = 24
@@ -127,6 +127,7 @@ def main():
     ap.add_argument('--runs', type=int)
     ap.add_argument('--jobs', type=int, default=int(os.environ.get('VERIF_JOBS', '0')) or (os.cpu_count() or 4))
     ap.add_argument('--no-selftest', action='store_true')
+    ap.add_argument('--selftest-only', action='store_true')
     ap.add_argument('--no-minimise', action='store_true')
     ap.add_argument('--digests-only', action='store_true')
     ap.add_argument('--seed-list')
@@ -171,6 +172,13 @@ def run_check(args, prop, t0):
             return 2
         print('determinism self-test: %d seeds x 3 executions identical' % det['seeds'])
         sys.stdout.flush()
+
+    if args.selftest_only:
+        return 0
+
+    # ---- regression corpus: replays of defects that were repaired ("fixed" entries) and
+    # of seeded changes; none may reproduce on the tree under test
+    regress_lines, n_regress = replay_regressions(prop)
 
     ctx = multiprocessing.get_context('fork')
     summaries = []
@@ -270,11 +278,13 @@ def run_check(args, prop, t0):
         if k.get('status') == 'open' and k['property'] == prop:
             print('KNOWN-FINDING: property=%s %s :: %s (seen %d times in this run)' % (
                 prop, k['id'], k['what'], n_known.get(k['id'], 0)))
-    for ln in lines:
+    for ln in regress_lines + lines:
         print(ln)
+    n_unlisted += len(regress_lines)
 
     evidence = build_evidence(prop, args.tier, base, summaries, det, time.time() - t0, sim_wall, n_unlisted, n_known,
                               jobs)
+    evidence['coverage']['regression_replays'] = n_regress
     path = args.evidence or os.path.join(env.VERIF, 'evidence', '%s.json' % prop)
     os.makedirs(os.path.dirname(path), exist_ok=True)
     with open(path, 'w') as f:
@@ -284,6 +294,35 @@ def run_check(args, prop, t0):
         cov['evaluations'], cov['distinct_nontrivial'], cov['logical_steps'], cov['abstract_transitions_reached'],
         cov['faults']['fired'], n_unlisted, evidence['wall_s'], cov['runs_per_hour']))
     return 1 if n_unlisted else 0
+
+
+def replay_regressions(prop):
+    from sim import minimise, runner
+    d = os.path.join(env.VERIF, 'regressions')
+    lines = []
+    n = 0
+    if not os.path.isdir(d):
+        return lines, n
+    for name in sorted(os.listdir(d)):
+        if not name.endswith('.json'):
+            continue
+        path = os.path.join(d, name)
+        with open(path) as f:
+            rp = json.load(f)
+        if rp.get('property') != prop:
+            continue
+        n += 1
+        res = runner.simulate(rp['run'], [prop])
+        if res['invalid']:
+            raise env.HarnessError('regression %s: plan invalid: %s' % (name, res['invalid']))
+        sig = minimise.signature(rp['expected'], rp['run'])
+        for v in res['verdicts']:
+            if minimise.signature(v, rp['run']) == sig:
+                lines.append('VIOLATION property=%s replay=%s oracle=%s regression :: %s' % (
+                    prop, path, v['oracle'], (v.get('detail') or ('got %s want %s' % (v.get('got'), v.get('want'))))[:300]))
+                break
+    print('regression corpus: %d replays, %d reproduce' % (n, len(lines)))
+    return lines, n
 
 
 def build_evidence(prop, tier, base, summaries, det, wall, sim_wall, n_viol, n_known, jobs):
